@@ -12,7 +12,7 @@ CHECKS = {
              "user function supplied through Config.python_modules; by simulation up to 8 grown nodes / 3 states / 2 controls / 2 calibrations, "
              "look-alike names, dt positive, zero and negative) with the exact rational value of every update expression; every behaviour is written "
              "down in its own random presentation (declaration order, container, proactive_simplify) and replayed into python.compile(...).model "
-             "with CSE off and on; results handed out earlier are re-read at the end of the behaviour.",
+             "with CSE off and on; results handed out earlier are re-read at the end of the behaviour. Thorough tier: every model / filter call the repository's own test-suite executes is recorded (pytest plugin, /repo untouched), projected against the Jacobian trees Derive.tla derives from the recorded definition and validated by EKFCalls_Trace.tla.",
         design_ref="DESIGN.md section 4 C01",
         note="Trusted: TLC + Rational.tla exact arithmetic; the 30-line reference interpreter for elementary "
              "functions (cross-checked against TLC on the rational fragment on every run); tolerance 1e-9 relative.",
@@ -37,7 +37,7 @@ CHECKS = {
              "exhaustively that reading-less ticks never influence later returns (ghost run), that refused ticks change nothing and that the held "
              "time only moves to reading timestamps; behaviours are replayed into both runtimes (complete call sequences with the control each "
              "step was given); statically refused calls are negative compile tests; a second family ticks REAL compiled non-linear Python "
-             "filters and compares with the hand fold in the order the spec gives.",
+             "filters and compares with the hand fold in the order the spec gives. The caller may list the same reading object twice (RepeatReading): it is folded twice, at its places.",
         design_ref="DESIGN.md section 4 C11",
         note="Trusted: recording stand-in filters (free monoid), g++ 12 as the judge of the negative compile tests.",
         technique="TLA+ spec (ManagedFilter.tla) + TLC; spec->code replay of tick histories into Python and C++ runtimes",
@@ -55,7 +55,7 @@ CHECKS = {
         category="model_checking",
         text="TLC computes x' = f(x,u) and P' = G P G^T + V M V^T exactly (M assembled by control NAME with distinct noises) along histories of "
              "6-9 SetEstimate/Predict calls on ONE filter object that repeat dt values (incl. dt = 0), checks symmetry/PSD of every covariance as "
-             "an invariant, and the behaviours are replayed into process_model (inputs unmodified, repeat call identical).",
+             "an invariant, and the behaviours are replayed into process_model (inputs unmodified, repeat call identical). Thorough tier: every model / filter call the repository's own test-suite executes is recorded (pytest plugin, /repo untouched), projected against the Jacobian trees Derive.tla derives from the recorded definition and validated by EKFCalls_Trace.tla.",
         design_ref="DESIGN.md section 4 C04",
         note="Trusted: exact rational linear algebra (Linalg.tla); rational fragment only; SPD integer covariances.",
         technique="TLA+ spec (Formak.tla Predict) + TLC simulation with invariants; spec->code replay into the Python EKF",
@@ -65,7 +65,7 @@ CHECKS = {
         text="TLC computes the Kalman correction exactly for sensors with 1-4 readings of unequal noise and checks on every state the stated "
              "consequences (z = h(x) leaves x unchanged, P' symmetric PSD, P - P' PSD, S symmetric PD) and the rescaling theorem InvRescale "
              "(one reading measured in other units changes nothing); behaviours are replayed into sensor_model (state, covariance, recorded "
-             "innovation, S, by name), and so are their rescaled twins with factor 2^22 (eigenvalues of S spread over 13 decades).",
+             "innovation, S, by name), and so are their rescaled twins with factor 2^22 (eigenvalues of S spread over 13 decades). Thorough tier: every model / filter call the repository's own test-suite executes is recorded (pytest plugin, /repo untouched), projected against the Jacobian trees Derive.tla derives from the recorded definition and validated by EKFCalls_Trace.tla.",
         design_ref="DESIGN.md section 4 C05",
         note="Trusted: exact rational linear algebra incl. adjugate inverse (sizes 1-3); det S >= 1 conditioning window.",
         technique="TLA+ spec (Formak.tla UpdateAccept) + TLC simulation with invariants; spec->code replay into the Python EKF",
@@ -76,7 +76,7 @@ CHECKS = {
              "unchanged and is never enabled with filtering disabled. Behaviours with thresholds k in {None, 1/256, 1/2, 1, 2.576, 3, 5} are "
              "replayed into the Python filter (bit-identical estimate on discard, from a prior that is symmetric only up to rounding) and into "
              "the generated C++ filter for every threshold; GateCases.tla enumerates exact cases incl. the boundary for m = 1,2,3,8 against "
-             "remove_innovation and the real removeInnovation<m>; a +-6 ulp band around fl(k sqrt(2m)+m) for m = 1,2,3,5,7 is trace-validated.",
+             "remove_innovation and the real removeInnovation<m>; a +-6 ulp band around fl(k sqrt(2m)+m) for m = 1,2,3,5,7 is trace-validated. Thorough tier: every model / filter call the repository's own test-suite executes is recorded (pytest plugin, /repo untouched), projected against the Jacobian trees Derive.tla derives from the recorded definition and validated by EKFCalls_Trace.tla.",
         design_ref="DESIGN.md section 4 C06",
         note="Trusted: exact rational arithmetic; ulp-level boundary agreement between implementations is the trace part (DESIGN 4 C06 d).",
         technique="TLA+ spec (Formak.tla UpdateAccept/UpdateReject + Gate) + TLC; spec->code replay into Python (and C++) filters",
@@ -160,7 +160,7 @@ CHECKS = {
              "length 6). TLC-generated command sequences (set_params on every parameter, field, several names in one call, config plus field, "
              "unknown names; get-then-set, clone, queries, fit) are executed on a real adapter over three model universes and varied training "
              "data incl. a corpus on which scipy does not converge; the recorded events with projected parameter state are validated by TLC "
-             "against Estimator_Trace.tla (fit nondeterministic: FitOk / FitFail).",
+             "against Estimator_Trace.tla (fit nondeterministic: FitOk / FitFail). Commands include export_python (the exported filter must carry the current configuration and noises by name) and fit_transform (= fit, then transform).",
         design_ref="DESIGN.md section 4 C17",
         note="Trusted: the projection (tokens by identity / structural equality; noise maps as key set + finite + positive flags).",
         technique="TLA+ spec (Estimator.tla) generates command sequences; code->spec trace validation (Estimator_Trace.tla)",
@@ -182,7 +182,7 @@ CHECKS = {
              "SetEstimate/Predict/Update behaviours of Formak.tla -- including singular-Jacobian models -- and the behaviours are replayed "
              "into the Python filter (never refused, values match). Rounding part: seeded randomised histories of up to 200 steps on the "
              "project's mass/z/v/a model, exactly correlated states, a nonlinear calibrated model, a zero-Jacobian-row model and TLC-drawn "
-             "models are recorded (outcome, validity of input and output covariance) and validated by TLC against the protocol CovGate_Trace.",
+             "models are recorded (outcome, validity of input and output covariance) and validated by TLC against the protocol CovGate_Trace. Thorough tier: every model / filter call the repository's own test-suite executes is recorded (pytest plugin, /repo untouched), projected against the Jacobian trees Derive.tla derives from the recorded definition and validated by EKFCalls_Trace.tla. The exact behaviours start from covariances D + v v^T that are singular for some rotations and are replayed into the generated C++ filter too.",
         design_ref="DESIGN.md section 4 C09 / section 6",
         note="The rounding claim itself is decided by the NumPy projection (relative 1e-9 symmetry / eigenvalue test); TLC checks the exact "
              "update forms and the protocol. Stated in DESIGN.md section 6 as the weakest property for this technique.",
